@@ -129,6 +129,7 @@ def leaf_values(ts, rng: random.Random) -> Tuple[List[tuple], List[tuple]]:
     if k == "String":
         n = ts[1]
         good = ["", "a" * (n - 1), "b", ("\x01\x1f\n\t" * n)[:n - 1], ('"\\/' * n)[:n - 1], "\x7f", ("xy" * n)[:max(1, (n - 1) // 2)]]
+        good += nul_strings(n)
         return [V_str(s) for s in good], [V_str("a" * n), V_str("é")]
     if k == "ByteArray":
         n = ts[1]
@@ -147,6 +148,19 @@ def leaf_values(ts, rng: random.Random) -> Tuple[List[tuple], List[tuple]]:
                  V_list([rng.choice(nonnan) for _ in range(n)]),
                  V_list([V_fbits(NEG_NAN)] + [rng.choice(nonnan) for _ in range(n - 1)])], [V_list([V_float(1e39) if ts[1] == "Float" else V_fbits(0x7FF0000000000000)] * n)])
     raise ValueError(ts)
+
+
+def nul_strings(n: int) -> List[str]:
+    """validator-accepted strings (length <= n-1, ASCII) with a NUL at the first, an interior and the last position,
+    maximum length with a NUL inside, other control characters and DEL around the NUL"""
+    m = n - 1
+    out = ["\x00"[:m]]
+    if m >= 2:
+        out += ["\x00" + "t" * (m - 1), "t" * (m - 1) + "\x00", "\x7f\x00"[:m]]
+    if m >= 3:
+        out += ["a" + "\x00" + "c" * (m - 2), ("ab\x00cd" + "e" * m)[:m], "\x01\x00\x1f"[:m], "a\x00\x00b"[:m],
+                "\x7f" * (m - 2) + "\x00" + "\x7f"]
+    return [x for x in out if x]
 
 
 def mkset(leaf: dict, val) -> dict:
@@ -202,6 +216,15 @@ def gen_cases(L: Layouts, own: List[int], imported: List[int], hdr_ci: int, rng:
                 else:
                     sets.append(mkset(lf, rng.choice(b)))
             add(ci, sets, "history")
+    # strings with NULs over a zero image and over a maximum-length previous value: every String leaf of the own
+    # classes (top level, nested struct, struct-array element)
+    for ci in own:
+        for lf in leaves(ci):
+            if lf["ts"][0] == "String" and lf["ts"][1] >= 3:
+                n = lf["ts"][1]
+                for sv in nul_strings(n):
+                    add(ci, [mkset(lf, V_str(sv))], "string-nul-on-zero")
+                    add(ci, [mkset(lf, V_str("z" * (n - 1))), mkset(lf, V_str(sv))], "string-nul-on-nonzero")
     # targeted: stale string tail, signed / payload NaN, -0.0, one per own class that has such leaves
     for ci in own:
         lv = leaves(ci)
